@@ -20,6 +20,9 @@ package main
 //   proxy_reset_reads_status : the `if` of doRetryCheck that calls MappingHeaderStatusCode is entered for resets too (condition is
 //                          just `ctx != nil`); false when it also requires `reason == ""` or `headers != nil` (go/ast)
 //   proxy_res_counts_unlimited : resource.Increase / Decrease of the cluster resource manager are not guarded by `r.max != 0` (go/ast)
+//   proxy_send_once_per_upreq : the RunSenderFilter call of the UpFilter case of receive() sits under a condition (go/ast)
+//   proxy_started_marked_first : onUpstreamHeaders assigns downstreamResponseStarted before it calls appendHeaders and assigns no
+//                          field of the stream after that call (go/ast)
 //   proxy_hijack_clears_body : sendHijackReply assigns downstreamRespDataBuf = nil at top level (go/ast)
 //   proxy_put_resets_cursor : streamfilter.PutStreamFilterChain (or a chain method it calls) assigns 0 to both cursors (go/ast)
 //   proxy_default_global_ms : types.GlobalTimeout (evaluated)
@@ -566,6 +569,87 @@ func genProxyTokens(repo string) (string, error) {
 		ok = false
 	}
 	fmt.Fprintf(&b, "Definition proxy_res_counts_unlimited : bool := %v.\n", countsUnlimited)
+	// --- the UpFilter phase of receive(): is the send-filter chain run unconditionally on every entry of the phase?
+	sendOnce, upfSeen := false, 0
+	if rc := FindFunc(f, "downStream", "receive"); rc != nil {
+		ast.Inspect(rc.Body, func(n ast.Node) bool {
+			cc, isCase := n.(*ast.CaseClause)
+			if !isCase || len(cc.List) != 1 {
+				return true
+			}
+			se, isSel := cc.List[0].(*ast.SelectorExpr)
+			if !isSel || se.Sel.Name != "UpFilter" {
+				return true
+			}
+			upfSeen++
+			runs := func(n ast.Node) bool {
+				found := false
+				ast.Inspect(n, func(x ast.Node) bool {
+					if ce, isCall := x.(*ast.CallExpr); isCall {
+						if s2, isS := ce.Fun.(*ast.SelectorExpr); isS && s2.Sel.Name == "RunSenderFilter" {
+							found = true
+						}
+					}
+					return true
+				})
+				return found
+			}
+			top := false
+			for _, st := range cc.Body {
+				if _, isExpr := st.(*ast.ExprStmt); isExpr && runs(st) {
+					top = true
+				}
+			}
+			if !top {
+				if runs(cc) {
+					sendOnce = true // the call sits under a condition
+				} else {
+					ok = false
+				}
+			}
+			return false
+		})
+	}
+	if upfSeen != 1 {
+		ok = false
+	}
+	fmt.Fprintf(&b, "Definition proxy_send_once_per_upreq : bool := %v.\n", sendOnce)
+	// --- onUpstreamHeaders: downstreamResponseStarted is set before appendHeaders (which may end the stream and give the object
+	// back to the pool), and nothing of the stream is assigned after that call
+	markedFirst := false
+	if uh := FindFunc(f, "downStream", "onUpstreamHeaders"); uh != nil {
+		callAt, markAt, lateWrite := -1, -1, false
+		for i, st := range uh.Body.List {
+			if es, isExpr := st.(*ast.ExprStmt); isExpr {
+				if ce, isCall := es.X.(*ast.CallExpr); isCall {
+					if se, isSel := ce.Fun.(*ast.SelectorExpr); isSel && se.Sel.Name == "appendHeaders" {
+						callAt = i
+					}
+				}
+			}
+			if as, isAs := st.(*ast.AssignStmt); isAs {
+				for _, l := range as.Lhs {
+					if se, isSel := l.(*ast.SelectorExpr); isSel {
+						if id, isID := se.X.(*ast.Ident); isID && id.Name == "s" {
+							if se.Sel.Name == "downstreamResponseStarted" && markAt < 0 {
+								markAt = i
+							}
+							if callAt >= 0 {
+								lateWrite = true
+							}
+						}
+					}
+				}
+			}
+		}
+		if callAt < 0 || markAt < 0 {
+			ok = false
+		}
+		markedFirst = markAt >= 0 && callAt >= 0 && markAt < callAt && !lateWrite
+	} else {
+		ok = false
+	}
+	fmt.Fprintf(&b, "Definition proxy_started_marked_first : bool := %v.\n", markedFirst)
 	minBudget := ""
 	if nf := FindFunc(rf, "", "newRetryState"); nf != nil {
 		ast.Inspect(nf.Body, func(n ast.Node) bool {
@@ -631,7 +715,7 @@ func genProxyTokens(repo string) (string, error) {
 		}
 	}
 	fmt.Fprintf(&b, "Definition proxy_default_global_ms : Z := %d.\n", int64(types.GlobalTimeout/time.Millisecond))
-	b.WriteString("Definition proxy_src : srcp :=\n  {| loop_bound := proxy_loop_bound; min_budget := proxy_min_budget; reset_guarded := proxy_reset_guarded;\n     direct_clears_again := proxy_direct_clears_again;\n     direct_cancels_retry := proxy_direct_cancels_retry; direct_resets_upstream := proxy_direct_resets_upstream;\n     put_resets_cursor := proxy_put_resets_cursor;\n     retry_checks_direct := proxy_retry_checks_direct; retry_refinalizes := proxy_retry_refinalizes;\n     timers_reset_stream := proxy_timers_reset_stream; hijack_clears_body := proxy_hijack_clears_body;\n     retry_clears_reuse := proxy_retry_clears_reuse; setupretry_clears_reuse := proxy_setupretry_clears_reuse;\n     global_lost_cas_stops := proxy_global_lost_cas_stops; append_error_continues := proxy_append_error_continues;\n     reset_excludes_global := proxy_reset_excludes_global; reset_reads_status := proxy_reset_reads_status;\n     res_counts_unlimited := proxy_res_counts_unlimited;\n     reason_code := proxy_reason_code |}.\n")
+	b.WriteString("Definition proxy_src : srcp :=\n  {| loop_bound := proxy_loop_bound; min_budget := proxy_min_budget; reset_guarded := proxy_reset_guarded;\n     direct_clears_again := proxy_direct_clears_again;\n     direct_cancels_retry := proxy_direct_cancels_retry; direct_resets_upstream := proxy_direct_resets_upstream;\n     put_resets_cursor := proxy_put_resets_cursor;\n     retry_checks_direct := proxy_retry_checks_direct; retry_refinalizes := proxy_retry_refinalizes;\n     timers_reset_stream := proxy_timers_reset_stream; hijack_clears_body := proxy_hijack_clears_body;\n     retry_clears_reuse := proxy_retry_clears_reuse; setupretry_clears_reuse := proxy_setupretry_clears_reuse;\n     global_lost_cas_stops := proxy_global_lost_cas_stops; append_error_continues := proxy_append_error_continues;\n     reset_excludes_global := proxy_reset_excludes_global; reset_reads_status := proxy_reset_reads_status;\n     res_counts_unlimited := proxy_res_counts_unlimited;\n     send_once_per_upreq := proxy_send_once_per_upreq; started_marked_first := proxy_started_marked_first;\n     reason_code := proxy_reason_code |}.\n")
 	fmt.Fprintf(&b, "Definition ProxyTokens_translator_ok := %v.\n", ok)
 	return b.String(), nil
 }
